@@ -496,3 +496,388 @@ Proof.
     intros _ Hj. split; [lia|]. intros E. exfalso. apply Hnj; [|exact Hj|exact E].
     unfold in_bounds in Hb. lia.
 Qed.
+
+(* ------------------------------------------------------------------ 5b. guest memory *)
+Lemma vs_upto_in (rd : bool) self fuel s m addr count :
+  in_bounds self m -> vs_addr self + vs_len self < W64 -> addr <= vs_len self -> (length (k_script s) < fuel)%nat ->
+  exists s' m' r j b k, vs_upto fuel (callb rd) self addr s m count = Val ((s', m'), r)
+    /\ k_done s' = k_done s ++ repeat Eintr j ++ [b] /\ is_eintr b = false
+    /\ (length (k_script s') <= length (k_script s))%nat
+    /\ (forall sc, LogInv sc s -> LogInv sc s')
+    /\ Moved rd s m (vs_off self + addr) k s' m' /\ k <= N.min (vs_len self - addr) count
+    /\ (0 < k -> (length (k_script s') < length (k_script s))%nat)
+    /\ ((is_hard b = true /\ r = Err (VIo EOther) /\ k = 0) \/ (is_hard b = false /\ r = Ok k)).
+Proof.
+  intros Hb Ha Hle Hf. unfold vs_upto. rewrite (vs_offset_ok self addr Ha Hle).
+  set (sl := {| vs_addr := vs_addr self + addr; vs_off := vs_off self + addr; vs_len := vs_len self - addr |}).
+  set (n := N.min (vs_len sl) count).
+  assert (Hn : n <= vs_len self - addr) by (unfold n, sl; cbn [vs_len]; lia).
+  unfold vs_subslice, checked_add. rewrite N.add_0_l.
+  destruct (N.ltb_spec n W64) as [_|Hbad]; [|lia].
+  destruct (N.ltb_spec (vs_len sl) n) as [Hbad|_]; [unfold sl in Hbad; cbn [vs_len] in Hbad; lia|].
+  set (sl2 := {| vs_addr := vs_addr sl + 0; vs_off := vs_off sl + 0; vs_len := n |}).
+  assert (Hb2 : in_bounds sl2 m).
+  { unfold in_bounds, sl2, sl in *. cbn [vs_off vs_len]. lia. }
+  destruct (retry_spec rd fuel s m sl2 Hf Hb2)
+    as (s1 & m1 & r1 & j & b & k & Hr & Hd & Hbe & Hl & Hli & HM & Hk & Hp & Hres).
+  exists s1, m1, r1, j, b, k. unfold sl2, sl in HM, Hk. cbn [vs_off vs_len] in HM, Hk.
+  rewrite N.add_0_r in HM. unfold n, sl in Hk. cbn [vs_len] in Hk. repeat split; auto.
+Qed.
+
+Lemma vs_exact_in (rd : bool) zerr self fuel s m addr count :
+  in_bounds self m -> vs_addr self + vs_len self < W64 -> addr + count <= vs_len self ->
+  (length (k_script s) < fuel)%nat -> Clean (k_done s) ->
+  exists s' m' r k, vs_exact zerr fuel (callb rd) self addr s m count = Val ((s', m'), r)
+    /\ Moved rd s m (vs_off self + addr) k s' m' /\ k <= count
+    /\ (length (k_script s') <= length (k_script s))%nat
+    /\ (0 < k -> (length (k_script s') < length (k_script s))%nat)
+    /\ (forall sc, LogInv sc s -> LogInv sc s')
+    /\ ((r = Ok tt /\ k = count /\ Clean (k_done s'))
+        \/ (r = Err (VIo zerr) /\ k < count /\ Clean (k_done s'))
+        \/ (r = Err (VIo EOther) /\ k < count /\ HardEnd (k_done s'))).
+Proof.
+  intros Hb Ha Hle Hf Hc. unfold vs_exact, vs_subslice, checked_add.
+  destruct (N.ltb_spec (addr + count) W64) as [_|Hbad]; [|unfold in_bounds in Hb; lia].
+  destruct (N.ltb_spec (vs_len self) (addr + count)) as [Hbad|_]; [lia|].
+  set (sl := {| vs_addr := vs_addr self + addr; vs_off := vs_off self + addr; vs_len := count |}).
+  unfold exact_volatile.
+  rewrite (vs_offset_ok sl 0) by (unfold sl; cbn [vs_addr vs_len]; lia).
+  set (pb := {| vs_addr := vs_addr sl + 0; vs_off := vs_off sl + 0; vs_len := vs_len sl - 0 |}).
+  destruct (exact_loop_spec rd zerr fuel fuel s m pb)
+    as (s1 & m1 & r1 & k & He & HM & Hk & Hl & Hp & Hli & Hres); auto.
+  { unfold in_bounds, pb, sl in *. cbn [vs_off vs_len]. lia. }
+  { unfold pb, sl. cbn [vs_addr vs_len]. lia. }
+  exists s1, m1, r1, k. unfold pb, sl in HM, Hk, Hres. cbn [vs_off vs_len] in HM, Hk, Hres.
+  rewrite N.add_0_r in HM. rewrite N.sub_0_r in Hk, Hres. repeat split; auto.
+Qed.
+
+Lemma contains_iff r a : contains r a = true <-> g_start r <= a /\ a < g_start r + g_len r.
+Proof.
+  unfold contains. rewrite andb_true_iff, N.leb_le, N.ltb_lt. lia.
+Qed.
+Lemma wf_regions_in : forall L moff r, wf_regions L moff = true -> In r L ->
+  0 < g_len r /\ g_start r + g_len r < W64 /\ moff <= g_moff r /\ g_moff r + g_len r <= moff + total_len L.
+Proof.
+  induction L as [|r0 t IH]; intros moff r Hw Hin; [destruct Hin|].
+  cbn [wf_regions] in Hw. rewrite !andb_true_iff in Hw. destruct Hw as [[[[H1 H2] H3] H4] H5].
+  apply N.ltb_lt in H1, H2. apply N.eqb_eq in H3. cbn [total_len fold_right]. fold (total_len t).
+  destruct Hin as [->|Hin]; [lia|].
+  destruct (IH _ _ H5 Hin) as (A & B & C & D). lia.
+Qed.
+Lemma find_unique : forall L moff r a, wf_regions L moff = true -> In r L -> contains r a = true ->
+  find (fun r => contains r a) L = Some r.
+Proof.
+  induction L as [|r0 t IH]; intros moff r a Hw Hin Hc; [destruct Hin|].
+  cbn [wf_regions] in Hw. rewrite !andb_true_iff in Hw. destruct Hw as [[[[H1 H2] H3] H4] H5].
+  cbn [find]. destruct Hin as [->|Hin]; [rewrite Hc; reflexivity|].
+  destruct (contains r0 a) eqn:E.
+  - exfalso. unfold disjoint_from in H4. rewrite forallb_forall in H4. specialize (H4 r Hin).
+    apply contains_iff in E. apply contains_iff in Hc.
+    apply orb_true_iff in H4. rewrite !N.leb_le in H4. lia.
+  - eapply IH; eauto.
+Qed.
+
+Definition CbSpec (rd : bool) (L : list region) (M : N) (f : cbT sstream) (F : nat) : Prop :=
+  forall total len start region s m, In region L -> start + len <= g_len region -> nlen m = M ->
+    (length (k_script s) < F)%nat -> Clean (k_done s) ->
+    exists s' m' r k, f total len start region s m = Val ((s', m'), r)
+      /\ (forall sc, LogInv sc s -> LogInv sc s') /\ (length (k_script s') <= length (k_script s))%nat
+      /\ (0 < k -> (length (k_script s') < length (k_script s))%nat)
+      /\ Moved rd s m (g_moff region + start) k s' m' /\ k <= len
+      /\ ((r = GOk k /\ Clean (k_done s'))
+          \/ (r = GErr (GIo EOther) /\ HardEnd (k_done s'))
+          \/ (exists e, r = GErr (GIo e) /\ (e = EUnexpectedEof \/ e = EWriteZero) /\ Clean (k_done s') /\ k < len)).
+
+Lemma try_access_post (rd : bool) md L M f F count addr :
+  wf_regions L 0 = true -> total_len L = M -> CbSpec rd L M f F -> count < W64 ->
+  forall fuel cur total s m, (length (k_script s) < fuel)%nat -> (length (k_script s) < F)%nat ->
+    Clean (k_done s) -> nlen m = M -> cur < W64 -> (total = 0 -> cur = addr) -> (total < count \/ total = 0) ->
+  exists s' m' r K, try_access md fuel L count addr f cur total s m = Val ((s', m'), r)
+    /\ (forall sc, LogInv sc s -> LogInv sc s')
+    /\ GMoved rd (TGuest L) s m cur K s' m'
+    /\ ((r = GOk (total + K) /\ Clean (k_done s') /\ total + K <= count)
+        \/ (r = GErr GInvalidGuestAddress /\ total = 0 /\ K = 0 /\ Clean (k_done s') /\ idx_of (TGuest L) addr = None)
+        \/ (r = GErr (GIo EOther) /\ HardEnd (k_done s'))
+        \/ (exists e, r = GErr (GIo e) /\ (e = EUnexpectedEof \/ e = EWriteZero) /\ Clean (k_done s') /\ total + K < count)).
+Proof.
+  intros Hwf HM Hcb Hcount.
+  induction fuel as [|fl IH]; intros cur total s m Hf HF Hc Hm Hcur Hta Htot; [lia|].
+  cbn [try_access]. unfold find_region.
+  destruct (find (fun r => contains r cur) L) as [region|] eqn:Efind.
+  2:{ (* no region at cur *)
+    exists s, m. destruct (N.eqb_spec total 0) as [Hz|Hz].
+    - exists (GErr GInvalidGuestAddress), 0. split; [reflexivity|]. split; [auto|]. split; [apply GMoved_refl|].
+      right. left. split; [reflexivity|]. split; [exact Hz|]. split; [reflexivity|]. split; [exact Hc|].
+      cbn [idx_of]. rewrite <- (Hta Hz). rewrite Efind. reflexivity.
+    - exists (GOk total), 0. split; [reflexivity|]. split; [auto|]. split; [apply GMoved_refl|].
+      left. rewrite N.add_0_r. split; [reflexivity|]. split; [exact Hc|]. lia. }
+  apply find_some in Efind. destruct Efind as [Hin Hcont].
+  destruct (wf_regions_in L 0 region Hwf Hin) as (Hlen & Hend & _ & Hmoff).
+  pose proof Hcont as Hcont'. apply contains_iff in Hcont'.
+  unfold to_region_addr, checked_sub.
+  destruct (N.leb_spec (g_start region) cur) as [_|Hbad]; [|lia].
+  destruct (N.ltb_spec (cur - g_start region) (g_len region)) as [_|Hbad]; [|lia].
+  set (start := cur - g_start region).
+  rewrite psub_Val by (unfold start; lia). rewrite psub_Val by lia. cbn [bind].
+  set (len := N.min (g_len region - start) (count - total)).
+  destruct (Hcb total len start region s m Hin) as (s1 & m1 & r1 & k & Hcall & Hli & Hl & Hp & HMv & Hk & Hres); auto.
+  { unfold len. lia. }
+  rewrite Hcall. cbn [bind].
+  assert (HG : GMoved rd (TGuest L) s m cur k s1 m1).
+  { eapply Moved_GMoved; [|exact HMv]. split.
+    - intros i Hi. cbn [idx_of]. rewrite (find_unique L 0 region (cur + i) Hwf Hin).
+      + f_equal. unfold start. lia.
+      + apply contains_iff. unfold len, start in *. lia.
+    - unfold len, start in *. lia. }
+  assert (Hm1 : nlen m1 = M).
+  { rewrite <- Hm. eapply Moved_len; [|exact HMv]. unfold len, start in *. lia. }
+  destruct Hres as [(-> & Hc1)|[(-> & Hc1)|(e & -> & He & Hc1 & Hklt)]].
+  - (* the callback moved k bytes *)
+    destruct (N.eqb_spec k 0) as [Hk0|Hk0].
+    + subst k. exists s1, m1, (GOk total), 0. split; [reflexivity|]. split; [exact Hli|]. split; [exact HG|].
+      left. rewrite N.add_0_r. split; [reflexivity|]. split; [exact Hc1|]. lia.
+    + unfold checked_add. destruct (N.ltb_spec (total + k) W64) as [_|Hbad]; [|unfold len in Hk; lia].
+      destruct (N.ltb_spec (total + k) count) as [Hmore|Hdone].
+      * unfold overflowing_add. destruct (N.leb_spec W64 (cur + k)) as [Hbad|_];
+          [unfold len, start in Hk; lia|]. cbn [negb].
+        rewrite N.mod_small by (unfold len, start in Hk; lia).
+        destruct (IH (cur + k) (total + k) s1 m1) as (s2 & m2 & r2 & K2 & Hrec & Hli2 & HG2 & Hres2); auto.
+        { assert ((length (k_script s1) < length (k_script s))%nat) by (apply Hp; lia). lia. }
+        { lia. } { unfold len, start in Hk; lia. } { intros; lia. }
+        exists s2, m2, r2, (k + K2). split; [exact Hrec|]. split; [auto|].
+        split; [eapply GMoved_trans; eassumption|].
+        rewrite N.add_assoc.
+        destruct Hres2 as [(-> & A & B)|[(-> & A & _)|[(-> & A)|(e & -> & A & B & C)]]].
+        -- left. auto.
+        -- exfalso. lia.
+        -- right. right. left. auto.
+        -- right. right. right. exists e. auto.
+      * destruct (N.eqb_spec (total + k) count) as [Heq|Hne]; [|exfalso; unfold len in Hk; lia].
+        exists s1, m1, (GOk (total + k)), k. split; [reflexivity|]. split; [exact Hli|]. split; [exact HG|].
+        left. split; [reflexivity|]. split; [exact Hc1|]. lia.
+  - exists s1, m1, (GErr (GIo EOther)), k. split; [reflexivity|]. split; [exact Hli|]. split; [exact HG|].
+    right. right. left. auto.
+  - exists s1, m1, (GErr (GIo e)), k. split; [reflexivity|]. split; [exact Hli|]. split; [exact HG|].
+    right. right. right. exists e. split; [reflexivity|]. split; [exact He|]. split; [exact Hc1|]. unfold len in Hklt. lia.
+Qed.
+
+Lemma HardEnd_exists d : HardEnd d -> existsb is_hard d = true.
+Proof.
+  intros [H1 _]. destruct d as [|x d] using rev_ind; [discriminate|]. rewrite last_snoc in H1.
+  rewrite existsb_app. cbn [existsb]. rewrite H1, orb_true_r. reflexivity.
+Qed.
+
+(* the two callbacks of guest_memory.rs:678-715 *)
+Definition cb_upto (F : nat) (call : callT sstream) : cbT sstream :=
+  fun _ len caddr region s m => region_upto F call region caddr s m len.
+Definition cb_all (F : nat) (call : callT sstream) : cbT sstream :=
+  fun _ len caddr region s m =>
+    omap (fun x => (fst x, match snd x with GOk _ => GOk len | GErr e => GErr e end))
+         (region_exact EWriteZero F call region caddr s m len).
+
+Lemma region_window L M r : wf_regions L 0 = true -> total_len L = M -> HBASE + M < W64 -> In r L ->
+  forall m, nlen m = M -> in_bounds (region_slice r) m /\ vs_addr (region_slice r) + vs_len (region_slice r) < W64.
+Proof.
+  intros Hwf HM HB Hin m Hm. destruct (wf_regions_in L 0 r Hwf Hin) as (A & B & C & D).
+  unfold in_bounds, region_slice. cbn [vs_off vs_len vs_addr]. lia.
+Qed.
+
+Lemma cb_upto_spec (rd : bool) L M F : wf_regions L 0 = true -> total_len L = M -> HBASE + M < W64 ->
+  CbSpec rd L M (cb_upto F (callb rd)) F.
+Proof.
+  intros Hwf HM HB total len start region s m Hin Hle Hm Hf Hc.
+  destruct (region_window L M region Hwf HM HB Hin m Hm) as [Hb Ha].
+  destruct (vs_upto_in rd (region_slice region) F s m start len Hb Ha)
+    as (s1 & m1 & r1 & j & b & k & Hr & Hd & Hbe & Hl & Hli & HMv & Hk & Hp & Hres); auto.
+  { cbn [region_slice vs_len]. lia. }
+  unfold cb_upto, region_upto. rewrite Hr. cbn [omap fst snd].
+  exists s1, m1, (map_err r1), k. split; [reflexivity|]. split; [exact Hli|]. split; [exact Hl|]. split; [exact Hp|].
+  split; [exact HMv|]. split; [lia|].
+  destruct Hres as [(Hh & -> & ->)|(Hh & ->)]; cbn [map_err gerr_of].
+  - right. left. split; [reflexivity|]. rewrite Hd. destruct b; try discriminate. apply HardEnd_step. exact Hc.
+  - left. split; [reflexivity|]. rewrite Hd. apply Clean_step; assumption.
+Qed.
+Lemma cb_all_spec (rd : bool) L M F : wf_regions L 0 = true -> total_len L = M -> HBASE + M < W64 ->
+  CbSpec rd L M (cb_all F (callb rd)) F.
+Proof.
+  intros Hwf HM HB total len start region s m Hin Hle Hm Hf Hc.
+  destruct (region_window L M region Hwf HM HB Hin m Hm) as [Hb Ha].
+  destruct (vs_exact_in rd EWriteZero (region_slice region) F s m start len Hb Ha)
+    as (s1 & m1 & r1 & k & Hr & HMv & Hk & Hl & Hp & Hli & Hres); auto.
+  unfold cb_all, region_exact. rewrite Hr. cbn [omap fst snd].
+  eexists s1, m1, _, k. split; [reflexivity|]. split; [exact Hli|]. split; [exact Hl|]. split; [exact Hp|].
+  split; [exact HMv|]. split; [exact Hk|].
+  destruct Hres as [(-> & Hke & Hc1)|[(-> & Hke & Hc1)|(-> & Hke & Hc1)]]; cbn [map_err gerr_of].
+  - left. subst k. auto.
+  - right. right. exists EWriteZero. auto.
+  - right. left. auto.
+Qed.
+
+Lemma gm_upto_post (rd : bool) md L M f F count addr s m :
+  wf_regions L 0 = true -> total_len L = M -> CbSpec rd L M f F -> count < W64 -> addr < W64 ->
+  (length (k_script s) < F)%nat -> Clean (k_done s) -> nlen m = M ->
+  exists s' m' r, try_access md F L count addr f addr 0 s m = Val ((s', m'), r)
+    /\ (forall sc, LogInv sc s -> LogInv sc s')
+    /\ Post rd false (TGuest L) addr count s m s' m' (rc_gres okc_n r)
+    /\ Post rd true (TGuest L) addr count s m s' m'
+         (rc_gres okc_u match r with GErr e => GErr e
+                                | GOk res => if res =? count then GOk tt else GErr (GPartialBuffer count res) end).
+Proof.
+  intros Hwf HM Hcb Hcount Haddr Hf Hc Hm.
+  destruct (try_access_post rd md L M f F count addr Hwf HM Hcb Hcount F addr 0 s m)
+    as (s1 & m1 & r1 & K & Hr & Hli & HG & Hres); auto.
+  exists s1, m1, r1. split; [exact Hr|]. split; [exact Hli|].
+  destruct Hres as [(-> & Hc1 & HK)|[(-> & _ & -> & Hc1 & Hidx)|[(-> & Hc1)|(e & -> & He & Hc1 & HK)]]];
+    rewrite ?N.add_0_l in *.
+  - split.
+    + exists K. split; [exact HG|]. cbn [rc_gres okc_n rk_of fst snd]. split; [apply LogRes_clean; [exact Hc1|lia|lia]|].
+      split; [lia|reflexivity].
+    + exists K. split; [exact HG|]. destruct (N.eqb_spec K count) as [E|E]; cbn [rc_gres okc_u rk_of fst snd].
+      * split; [apply LogRes_clean; [exact Hc1|lia|lia]|]. split; [lia|]. intros _ _. split; auto.
+      * split; [apply LogRes_clean; [exact Hc1|lia|lia]|]. split; [lia|]. intros _ _. split; [lia|intros; contradiction].
+  - split.
+    + exists 0. split; [exact HG|]. cbn [rc_gres rk_of fst snd]. split; [apply LogRes_clean; [exact Hc1|lia|lia]|].
+      split; [lia|intros; lia].
+    + exists 0. split; [exact HG|]. cbn [rc_gres rk_of fst snd]. split; [apply LogRes_clean; [exact Hc1|lia|lia]|].
+      split; [lia|]. intros _ [Hj|Hj]; [split; lia|contradiction].
+  - split.
+    + exists K. split; [exact HG|]. cbn [rc_gres rc_io rk_of fst snd]. split; [apply LogRes_hard; exact Hc1|].
+      split; [lia|intros; lia].
+    + exists K. split; [exact HG|]. cbn [rc_gres rc_io rk_of fst snd]. split; [apply LogRes_hard; exact Hc1|].
+      split; [lia|]. intros Hh. rewrite (HardEnd_exists _ Hc1) in Hh. discriminate.
+  - assert (E : rk_of (rc_gres okc_n (GErr (GIo e))) = rc_io e /\ rk_of (rc_gres okc_u (GErr (GIo e))) = rc_io e)
+      by (split; reflexivity).
+    destruct E as [E1 E2].
+    assert (Hrc : rc_io e = 2 \/ rc_io e = 3) by (destruct He; subst; cbn; auto).
+    split.
+    + exists K. split; [exact HG|]. rewrite E1. split; [apply LogRes_clean; [exact Hc1|lia|lia]|].
+      split; [lia|]. intros; lia.
+    + exists K. split; [exact HG|]. rewrite E2. split; [apply LogRes_clean; [exact Hc1|lia|lia]|].
+      split; [lia|]. intros _ _. split; lia.
+Qed.
+
+(* ------------------------------------------------------------------ 6. the model satisfies the checker *)
+Lemma rc_gres_map_err {A} (okc : A -> N * N) (r : res A) : rc_gres okc (map_err r) = rc_res okc r.
+Proof. destruct r as [a|[e| |]]; reflexivity. Qed.
+
+Lemma LogInv_stream0 c : LogInv (c_script c) (stream0 c).
+Proof. exists 0%nat. cbn [stream0 k_done k_script repeat app]. rewrite app_nil_r. reflexivity. Qed.
+
+Lemma exec_post c : wf14 c = true ->
+  exists s' m' rc, exec14 c = Val ((s', m'), rc) /\ LogInv (c_script c) s'
+    /\ Post (is_read (c_op c)) (is_exact (c_op c)) (c_target c) (c_addr c) (c_count c) (stream0 c) (c_mem c) s' m' rc.
+Proof.
+  intros Hwf. unfold wf14 in Hwf. rewrite !andb_true_iff in Hwf. destruct Hwf as [[[Ht HB] Haddr] Hcount].
+  apply N.ltb_lt in HB, Haddr, Hcount.
+  assert (Hf : (length (k_script (stream0 c)) < fuel14 c)%nat) by (unfold fuel14; cbn [stream0 k_script]; lia).
+  assert (Hc : Clean (k_done (stream0 c))) by apply Clean_nil.
+  pose proof (LogInv_stream0 c) as Hli0.
+  unfold exec14.
+  assert (Hcall : call_of (c_op c) = callb (is_read (c_op c))) by reflexivity.
+  assert (Hz : zero_err_of (c_op c) = if is_read (c_op c) then EUnexpectedEof else EWriteZero) by reflexivity.
+  rewrite Hcall, Hz.
+  destruct (c_target c) as [soff slen|r|L] eqn:Et.
+  - (* VolatileSlice *)
+    apply N.leb_le in Ht.
+    set (self := {| vs_addr := HBASE + soff; vs_off := soff; vs_len := slen |}).
+    assert (Hw : window_of (TSlice soff slen) self) by (intros a; reflexivity).
+    assert (Hb : in_bounds self (c_mem c)) by (unfold in_bounds, self; cbn [vs_off vs_len]; lia).
+    assert (Ha : vs_addr self + vs_len self < W64) by (unfold self; cbn [vs_addr vs_len]; lia).
+    destruct (is_exact (c_op c)).
+    + destruct (vs_exact_post (is_read (c_op c)) _ self (fuel14 c) (stream0 c) (c_mem c) (c_addr c) (c_count c) Hw Hb Ha Hf Hc Haddr Hcount)
+        as (s1 & m1 & r1 & He & Hli & HP).
+      rewrite He. cbn [omap fst snd]. eauto 10.
+    + destruct (vs_upto_post (is_read (c_op c)) _ self (fuel14 c) (stream0 c) (c_mem c) (c_addr c) (c_count c) Hw Hb Ha Hf Hc)
+        as (s1 & m1 & r1 & He & Hli & HP).
+      rewrite He. cbn [omap fst snd]. eauto 10.
+  - (* GuestRegionMmap *)
+    rewrite !andb_true_iff in Ht. destruct Ht as [[[H1 H2] H3] H4].
+    apply N.eqb_eq in H1, H2. apply N.ltb_lt in H3, H4.
+    assert (Hw : window_of (TRegion r) (region_slice r)) by (intros a; reflexivity).
+    assert (Hb : in_bounds (region_slice r) (c_mem c)) by (unfold in_bounds, region_slice; cbn [vs_off vs_len]; lia).
+    assert (Ha : vs_addr (region_slice r) + vs_len (region_slice r) < W64)
+      by (unfold region_slice; cbn [vs_addr vs_len]; lia).
+    destruct (is_exact (c_op c)).
+    + destruct (vs_exact_post (is_read (c_op c)) _ (region_slice r) (fuel14 c) (stream0 c) (c_mem c) (c_addr c) (c_count c) Hw Hb Ha Hf Hc Haddr Hcount)
+        as (s1 & m1 & r1 & He & Hli & HP).
+      unfold region_exact. rewrite He. cbn [omap fst snd]. rewrite rc_gres_map_err. eauto 10.
+    + destruct (vs_upto_post (is_read (c_op c)) _ (region_slice r) (fuel14 c) (stream0 c) (c_mem c) (c_addr c) (c_count c) Hw Hb Ha Hf Hc)
+        as (s1 & m1 & r1 & He & Hli & HP).
+      unfold region_upto. rewrite He. cbn [omap fst snd]. rewrite rc_gres_map_err. eauto 10.
+  - (* GuestMemoryMmap *)
+    rewrite andb_true_iff in Ht. destruct Ht as [Hwf HM]. apply N.eqb_eq in HM.
+    assert (HB' : HBASE + nlen (c_mem c) < W64) by exact HB.
+    destruct (c_op c) eqn:Eo; cbn [is_read is_exact callb].
+    + destruct (gm_upto_post true (c_mode c) L _ _ (fuel14 c) (c_count c) (c_addr c) (stream0 c) (c_mem c) Hwf HM
+                  (cb_upto_spec true L _ (fuel14 c) Hwf HM HB') Hcount Haddr Hf Hc eq_refl)
+        as (s1 & m1 & r1 & He & Hli & HP1 & HP2).
+      unfold gm_read_volatile_from. unfold cb_upto in He. cbn [callb] in He. rewrite He. cbn [omap fst snd]. eauto 10.
+    + destruct (gm_upto_post true (c_mode c) L _ _ (fuel14 c) (c_count c) (c_addr c) (stream0 c) (c_mem c) Hwf HM
+                  (cb_upto_spec true L _ (fuel14 c) Hwf HM HB') Hcount Haddr Hf Hc eq_refl)
+        as (s1 & m1 & r1 & He & Hli & HP1 & HP2).
+      unfold gm_read_exact_volatile_from, gm_exact_of, gm_read_volatile_from. unfold cb_upto in He. cbn [callb] in He.
+      rewrite He. cbn [omap fst snd]. eauto 10.
+    + destruct (gm_upto_post false (c_mode c) L _ _ (fuel14 c) (c_count c) (c_addr c) (stream0 c) (c_mem c) Hwf HM
+                  (cb_all_spec false L _ (fuel14 c) Hwf HM HB') Hcount Haddr Hf Hc eq_refl)
+        as (s1 & m1 & r1 & He & Hli & HP1 & HP2).
+      unfold gm_write_volatile_to. unfold cb_all in He. cbn [callb] in He. rewrite He. cbn [omap fst snd]. eauto 10.
+    + destruct (gm_upto_post false (c_mode c) L _ _ (fuel14 c) (c_count c) (c_addr c) (stream0 c) (c_mem c) Hwf HM
+                  (cb_all_spec false L _ (fuel14 c) Hwf HM HB') Hcount Haddr Hf Hc eq_refl)
+        as (s1 & m1 & r1 & He & Hli & HP1 & HP2).
+      unfold gm_write_all_volatile_to, gm_exact_of, gm_write_volatile_to. unfold cb_all in He. cbn [callb] in He.
+      rewrite He. cbn [omap fst snd]. eauto 10.
+Qed.
+
+Lemma list_eqb_refl l : list_eqb l l = true.
+Proof. apply list_eqb_eq. reflexivity. Qed.
+Lemma neqb_true a b : a <> b -> negb (a =? b) = true.
+Proof. intros H. destruct (N.eqb_spec a b); [contradiction|reflexivity]. Qed.
+
+Lemma post_ok c s' m' rk a b : LogInv (c_script c) s' ->
+  Post (is_read (c_op c)) (is_exact (c_op c)) (c_target c) (c_addr c) (c_count c) (stream0 c) (c_mem c) s' m' (rk, a, b) ->
+  ok_C14 c {| o_rk := rk; o_a := a; o_b := b; o_calls := nlen (k_done s');
+              o_moved := if is_read (c_op c) then nlen (c_src c) - nlen (k_src s') else nlen (k_sink s');
+              o_sink := k_sink s'; o_mem := m' |} = true.
+Proof.
+  intros Hli (k & HG & (H4 & He & Hh) & HR). cbn [rk_of fst snd] in *.
+  unfold ok_C14. cbn [o_rk o_a o_b o_calls o_moved o_sink o_mem].
+  rewrite (LogInv_calls_made _ _ Hli).
+  assert (Hmoved : (if is_read (c_op c) then nlen (c_src c) - nlen (k_src s') else nlen (k_sink s')) = k).
+  { destruct (is_read (c_op c)); cbn [GMoved] in HG.
+    - destruct HG as (A1 & A2 & _). rewrite A1, nlen_ndrop. cbn [stream0 k_src] in *. lia.
+    - destruct HG as (bs & A1 & A2 & _). rewrite A2. cbn [stream0 k_sink app].
+      apply flat_read_length in A1. unfold nlen. lia. }
+  rewrite Hmoved.
+  rewrite !andb_true_iff. repeat split.
+  - apply neqb_true. exact H4.
+  - rewrite He. reflexivity.
+  - destruct (existsb is_hard (k_done s')).
+    + destruct Hh as [-> Hr]. rewrite Hr. reflexivity.
+    + apply neqb_true. exact Hh.
+  - destruct (is_read (c_op c)); cbn [GMoved] in HG.
+    + destruct HG as (A1 & A2 & A3 & A4). cbn [stream0 k_src k_sink] in *. rewrite A3, A4.
+      rewrite !list_eqb_refl. cbn [list_eqb]. rewrite !andb_true_r. apply N.leb_le. exact A2.
+    + destruct HG as (bs & A1 & A2 & A3 & A4). cbn [stream0 k_src k_sink app] in *. subst m'.
+      rewrite list_eqb_refl. rewrite A1, A2, list_eqb_refl.
+      apply flat_read_length in A1. unfold nlen. rewrite A1, N2Nat.id, N.eqb_refl. reflexivity.
+  - destruct (is_exact (c_op c)).
+    + destruct HR as [H0 Hiff]. rewrite (neqb_true _ _ H0). cbn [andb].
+      destruct (existsb is_hard (k_done s')) eqn:Eh; [reflexivity|]. cbn [orb].
+      destruct ((0 <? c_count c) || match idx_of (c_target c) (c_addr c) with Some _ => true | None => false end) eqn:Ej;
+        [|reflexivity]. cbn [negb].
+      assert (Hj : judged (c_target c) (c_addr c) (c_count c)).
+      { apply orb_true_iff in Ej. destruct Ej as [Ej|Ej]; [left; apply N.ltb_lt; exact Ej|].
+        right. destruct (idx_of (c_target c) (c_addr c)); [discriminate|discriminate]. }
+      specialize (Hiff eq_refl Hj).
+      destruct (N.eqb_spec rk 1) as [E1|E1]; destruct (N.eqb_spec k (c_count c)) as [E2|E2]; try reflexivity.
+      * exfalso. apply E2. apply Hiff. exact E1.
+      * exfalso. apply E1. apply Hiff. exact E2.
+    + destruct HR as [H1 H0]. rewrite (neqb_true _ _ H1). cbn [andb].
+      destruct (N.eqb_spec rk 0) as [E|E]; [|reflexivity]. apply N.eqb_eq. apply H0. exact E.
+Qed.
+
+Lemma C14_model_ok_lemma : forall c, wf14 c = true -> ok_C14 c (run_C14 c) = true.
+Proof.
+  intros c Hwf. destruct (exec_post c Hwf) as (s' & m' & [[rk a] b] & He & Hli & HP).
+  unfold run_C14. rewrite He. apply post_ok; assumption.
+Qed.
